@@ -767,10 +767,9 @@ func TestVerifStandin_C16_HashesSynthetic(t *testing.T) {
 					fails.add("rc_normalized_hash_not_invariant", "message %s: Hash(true) = %s, another message with the same dest and body gave %s", vhTree(cell), c16Hex(got), c16Hex(*first))
 				}
 				if after := vhDump(m); after != before || m.Hash(false) != plainBefore {
+					// strict for every message: the dropped anycast prefix (a recorded finding) is reported by the hash
+					// comparison above, never here, so a Hash(true) that writes to its receiver is always a fresh violation
 					mcause := "rc_hash_true_mutates_message"
-					if anycast {
-						mcause = "rc_hash_true_strips_anycast_and_mutates_receiver"
-					}
 					fails.add(mcause, "message %s (dest %s): the decoded value changed during Hash(true): %s", vhTree(cell), dest.kind, c16FirstDiff(before, after))
 				}
 				if again := m.Hash(true); again != got {
